@@ -13,8 +13,8 @@ ASSUMPTIONS = [
     "no reordering of file writes)",
     "observation points are hook boundaries (entry/exit of protocol, setup, execute, teardown, process_report, log_end, unconfigure), "
     "before/after every SQLAlchemy commit of pytask.DatabaseSession, and one point inside a task body after its first product write",
-    "no edits between the kill and the recovery builds (with such an edit the property fails: finding F50, whose witness is replayed on every "
-    "run and recorded under F50_witness); task bodies are deterministic functions of their declared inputs and module text",
+    "random scenarios make no edits between the kill and the recovery builds; the corpus witness F50 (kill around every row commit, then one "
+    "input put back) covers edits after the kill; task bodies are deterministic functions of their declared inputs and module text",
     "persist / skip markers are not generated (a persisted or skipped task is outside 'what a from-scratch build would give', cf. C02)",
     "memo file classes: empty, cut inside a key, cut inside a value, missing closing brace, non-UTF-8 bytes, JSON of the wrong shape",
     "the schedule of the killed build is the one observed at protocol entries; theorems quantify over all legal schedules and all k",
@@ -242,13 +242,14 @@ def run(ctx):
             results = list(ex.map(lambda a: run_unit(pool.pick(a[0]), a[1]), enumerate(jobs)))
     finally:
         pool.close()
-    # finding F50 (kill between two row commits of a task + an edit after the kill): replayed on every run; reported as a
-    # KNOWN-FINDING once the integrator has listed it in known_findings.json, recorded in the evidence in any case
+    # corpus witness F50 (repaired by 637627e): kill around every row commit + an edit after the kill must never give a stale
+    # "unchanged" — an ordinary oracle, no known finding
     ctx.extra["F50_witness"] = f50
-    ctx.case(["F50-witness"], bool(f50.get("reproduced")), None)
-    if f50.get("reproduced") and "F50" in {e["id"] for e in common.load_known("C05") if e.get("status") == "known"}:
-        ctx.violation("stale: after a kill between two row commits and a later edit of one input, the task is reported "
-                      f"{f50.get('outcome')} with a product computed from other inputs", {"witness": "F50", "layer": "crash-e2e"}, finding="F50")
+    ctx.case(["F50-witness", f50.get("kills")], f50.get("kills", 0) > 0, None)
+    for st in f50.get("stale", [])[:1]:
+        ctx.violation("stale: after a kill between two state-row commits of one task and a later edit that puts one input back, the task is "
+                      f"reported {st['outcome']} although its product was computed from other inputs (same.txt={st['same.txt']!r}, a=2, b=1; "
+                      f"killed at observation point {st['killed_at_point']} = {st['kind']})", {"witness": "F50", "layer": "crash-e2e"})
     evaluate(ctx, results)
     ctx.extra["kill_scenarios"] = sum(len(r["runs"]) for r in results)
 
@@ -261,7 +262,7 @@ def replay(ctx, obj):
             f50 = crash.f50_witness(pool.pick(0))
         finally:
             pool.close()
-        return (not f50.get("reproduced")), f"F50 witness: {f50}"
+        return (not f50.get("stale")), f"F50 witness: {f50}"
     job = {"case": inp["case"], "mode": "given", "budget": 0, "seed": inp.get("scenario_seed", 0), "scenarios": [inp["scenario"]]}
     if "scenario" not in inp:
         job = {"case": inp["case"], "mode": "all", "budget": 0, "seed": 0}
